@@ -29,7 +29,8 @@ CLAIMED = {
             "any sequence of requests; end-to-end through the real, symbolically executed covariance builder for a duplicated sensor "
             "(3 sensors x 1 sub-aperture, 2 sensors x row mask); for svd_conditioning > 0 (symbolic): exactly one pseudo-inverse is taken, of C_off,off, "
             "with the user's conditioning as the RELATIVE singular-value threshold (numpy's rcond / rtol) and no absolute one, and R = C_on,off . that "
-            "pseudo-inverse (the truncated SVD itself is an opaque function). NOT claimed: singular matrices at conditioning 0, what LAPACK's truncated SVD returns",
+            "pseudo-inverse (the truncated SVD itself is an opaque function); an INTEGER-typed covariance matrix gives the reconstructor of the same values in float64; "
+            "sensors with different sub-aperture counts are partitioned at the on-axis sensor's count. NOT claimed: singular matrices at conditioning 0, what LAPACK's truncated SVD returns",
             "pinv(rcond=0) = adjugate*dinv with dinv*det == 1; optimality from the normal equations is the textbook step."),
     "C03": ("3 C03", "EUF mode (floating-point operations uninterpreted => term identity = bit identity): the multi-process build is the same term "
             "array as the single-process build for every explored execution order of the per-pair tasks (all permutations up to 4 tasks, "
@@ -43,7 +44,8 @@ CLAIMED = {
             "pixel) with b the generator's next nx draws; Fried: adding a constant shifts the row by it; the same for a second instance built after "
             "one with another r0. NOT claimed: stationarity as such (standard consequence for Gaussian vectors), Cholesky failure, float32 cast",
             "phase_covariance is a cut-point; Cholesky inverse = adjugate*dinv; SVD by its factorisation contract."),
-    "C05": ("3 C05", "one inductive step from an arbitrary (symbolic) screen state, repeated 2 (quick) / 3 (thorough) times, for both variants and requested "
+    "C05": ("3 C05", "one inductive step from an arbitrary (symbolic) screen state, repeated 2 (quick) / 3 (thorough) times - and histories of 5-9 steps, longer than the "
+            "internal working length, at nx = 2, 3 - for both variants and requested "
             "sizes whose internal Fried size differs (2,3,4,6 quick; up to 10 thorough): exposed screen stays N x N, rows 1.. are the previous exposed "
             "screen shifted by one, row 0 is A Z + B b, add_row() returns the exposed screen, exactly nx draws are consumed, nothing else changes; "
             "reading .scrn / repr() changes no attribute, no pixel and not the stream; find_allowed_size = least 2^n+1 >= nx for a symbolic integer "
@@ -54,8 +56,9 @@ CLAIMED = {
             "symbolic integer seed and symbolic parameters: the result after a history of interleaved operations (other instances with other or the "
             "same seed, rows added on other instances - also BETWEEN the rows of the screen under test (live other objects) -, numpy.random.seed / "
             "global draws, FFT screens with other inner scale; programs of length <= 2 quick / all pairs + triples thorough) equals the result in a history-free process, and a second reproduction after more interleaving "
-            "equals the first; each history runs in its own process. Different seeds / unseeded calls read disjoint draws (not forced equal)",
-            "stream model of numpy.random (documented seeding semantics); N = 2 grids; opaque content-named linear-algebra results."),
+            "equals the first; each history runs in its own process; odd grid sizes (N = 3) included. Different seeds never select the same random "
+            "stream (integer-typed symbolic seeds), unseeded calls read disjoint draws - also when NumPy's global state was reset to the same value before each",
+            "stream model of numpy.random (documented seeding semantics, randint = a value of the global stream); N = 2, 3 grids; opaque content-named linear-algebra results."),
     "C07": ("3 C07", "ft_phase_screen with r0, L0, l0, delta symbolic and the draws injected through `seed`: linear and homogeneous in the draws "
             "(zero mean), real; the exact ensemble covariance sum_k U_k(p)U_k(q) (unit-draw responses of the real code) equals the inverse DFT sum of "
             "0.023 r0^(-5/3) exp(-(f/fm)^2)(f^2+1/L0^2)^(-11/6) on the code's frequency grid with DC removed, for every pixel pair; variance independent "
@@ -69,19 +72,20 @@ CLAIMED = {
             "D = 2(B(0)-B(r)) to 2e-3 of the saturation value (lemma chain over algebraic powers of 2 and pi and enclosed Gamma constants); saturation "
             "constant 2*0.0863 to 1e-3; Kolmogorov copies agree (6.88 / 6.8839), Yao expansion within [0.97,1.01] for r <= 1e-6 L; exact r0^(-5/3) scaling "
             "of every copy; both screen generators take the square root of the same spectrum; every closed form returns for an INTEGER-typed array of separations "
-            "what it returns for the same values in float64. NOT claimed: monotonicity, Hankel-transform relation, "
+            "what it returns for the same values in float64, and acts element-wise on separation arrays of any shape (2x2, 1x2, 2x3, 2x1x2). NOT claimed: monotonicity, Hankel-transform relation, "
             "positive semi-definiteness for arbitrary point sets (analytic facts about K_{5/6})",
             "kv uninterpreted and positive; Gamma constants enclosed within 1e-12 of libm; D >= 0 assumed in the formula-consistency lemma."),
     "C09": ("4 C09", "ft/ift/ft2/ift2 and the real variants, as exported by the module and by the package, are inverse "
             "pairs, linear, satisfy Parseval, equal the centred DFT (origin at the centre sample) and obey the shift "
             "theorem for every complex input and every delta>0 at each listed size (1-D N<=5 quick / <=8 thorough, "
             "2-D N<=4 / <=6, batch shapes); decided per size by z3 over exact algebraic twiddles; the transform of a boolean- or integer-typed 0/1 array "
-            "equals the transform of the same values in float64", ""),
+            "equals the transform of the same values in float64; the inverse real transforms leave the spectrum they are given unchanged", ""),
     "C10": ("4 C10", "angularSpectrum (any magnification), oneStepFresnel, twoStepFresnel (both the m!=1 and the ZeroDivisionError m==1 path), "
             "lensAgainst conserve sum|U|^2 d^2 (per-element unit-modulus lemmas with the physically expected stage scalars, then a chain "
             "query in the parameters) and are linear (linear-combination cut), for every complex field and every wavelength/spacing/distance "
             "of either sign at N in {2,4,8} quick / up to 16 thorough; power conserved in every call of a history of 11 calls whose geometries differ "
-            "in one parameter at a time (nothing carried over from an earlier geometry); ft2/ift2 replaced by their C09 contract; monolithic exact-DFT cross-check at N=2", ""),
+            "in one parameter at a time (nothing carried over from an earlier geometry); a REAL-typed input field (float64 quick; bool, int64, float32 thorough) propagates like the same values as "
+            "complex128; ft2/ift2 replaced by their C09 contract; monolithic exact-DFT cross-check at N=2", ""),
     "C11": ("4 C11", "algebraic part only: z=0 returns the input; unit-magnification group law P(z2)oP(z1)=P(z1+z2), P(-z)oP(z)=id; "
             "m then 1/m recovers the input; lensAgainst = oneStepFresnel(U*lens); twoStepFresnel = two chained oneStepFresnel through z/(1-m) "
             "with output spacing d2; each also after a history of other calls; N in {2,4} quick / up to 8 thorough; "
@@ -138,7 +142,8 @@ CLAIMED = {
     "C19": ("5 C19", "calculate_structure_function on symbolic phase: entry j = mean squared difference at lag j*step along axis 0, 0 at lag 0 "
             "(numpy.empty = arbitrary values), ramp -> a^2 (j step)^2, quadratic in amplitude (shapes to 8x8 quick / 12x12 thorough, steps 1-4); "
             "calc_slope_temporalps: mean spectrum = sub-aperture mean of |DFT along frames|^2, quadratic in amplitude, error = std/sqrt(n), "
-            "a pure sinusoid peaks at its bin (frames 2-4 quick / 8 thorough, any leading shape); get_tps_time_axis = k*frame_rate/n for symbolic "
+            "a pure sinusoid peaks at its bin (frames 2-4 quick / 8 thorough, any leading shape; 13 frames - the smallest length that is not a fast FFT "
+            "size - with two symbolic amplitudes), on every path of decisions taken on slope values; get_tps_time_axis = k*frame_rate/n for symbolic "
             "frame rate and n <= 9 quick / a range up to 101 thorough (odd n included)",
             "'follows the analytic structure function on generated screens' is statistical - outside."),
     "C20": ("5 C20", "for 55 public entry points (list in the evidence; foreign-kernel functions named as skipped) on symbolic arrays and every "
@@ -149,9 +154,10 @@ CLAIMED = {
             "results = single-item results; "
             "gkl_fcom argument purity with arbitrary eigh outputs; replays run in a process forked from the pristine state", 
             "symbolic arrays stand for float64/complex128 arrays (numpy.asarray with a matching dtype aliases); float32 inputs are outside."),
-    "C17": ("5 C17", "all converters of atmos_conversions and _astronomy: the six inverse pairs (explicit and default wavelength), "
+    "C17": ("5 C17", "all converters of atmos_conversions and _astronomy: the six inverse pairs (explicit and default wavelength) on every path of the converters "
+            "(a guard on an argument's value forks), "
             "composites = compositions, scaling exponents (lambda^(6/5), Cn2^(-3/5), lambda^(-1/5), r0^(-5/3), d^(-1/3)), "
-            "single-layer theta0/tau0 = C r0/h with 0.313<C<0.315, axis argument = loop over profiles for rank 1-3 arrays and every "
+            "single-layer theta0/tau0 = C r0/h with 0.313<C<0.315, a 0-d single layer = the length-1 profile, axis argument = loop over profiles for rank 1-3 arrays and every "
             "axis, magnitude<->flux inverse, 5 mag = x100, proportionality to area/exposure, all 12 bands; for every positive "
             "symbolic argument (algebraic powers y^q=x^p)", "10**x/log10 are uninterpreted with instantiated exp/log axioms; decimal literals read at their decimal value."),
 }
